@@ -253,10 +253,12 @@ def srcActs (s : Nat) : List (Act Stream) := [
   { name := "src.wait", guard := fun st => st.src.pc = .wmapWait, upd := fun st => setSrcPc st .wmapAsleep },
   -- camera_get_frame: the HAL checks its state before calling the driver
   { name := "src.map.frame", guard := fun st => st.src.pc = .afterMap && st.cam.state = .running, upd := fun st => setSrcPc st .getFrame },
-  { name := "src.map.notrunning", guard := fun st => st.src.pc = .afterMap && st.cam.state ≠ .running, upd := fun st => setSrcPc st .finalize },
+  { name := "src.map.notrunning", guard := fun st => st.src.pc = .afterMap && st.cam.state ≠ .running,
+    upd := fun st => { st with sto := { st.sto with disturbed := true }, src := { st.src with pc := .finalize } } },
   { name := "src.frame.fault", guard := fun st => st.src.pc = .getFrame && camFault st,
     upd := fun st => { st with cam := { st.cam with ncalls := st.cam.ncalls + 1, failed := true,
                                                       callsAfterFailure := st.cam.callsAfterFailure + (if st.cam.failed then 1 else 0) },
+                               sto := { st.sto with disturbed := true },
                                src := { st.src with pc := .failStop } },
     out := fun st => [s!"DRV {camDev s} get_frame call={st.cam.ncalls} -> err"] },
   { name := "src.frame.empty", guard := fun st => st.src.pc = .getFrame && !camFault st && camEmpty st,
